@@ -1,6 +1,8 @@
 package props
 
 import (
+	"net/http"
+	"net/url"
 	"bufio"
 	"encoding/base64"
 	"encoding/json"
@@ -21,6 +23,7 @@ import (
 	"verif/harness/lab/authsvc"
 	"verif/harness/lab/gwc"
 	"verif/harness/lab/gwproc"
+	"verif/harness/lab/idp"
 	"verif/harness/lab/ntlmx"
 	"verif/harness/lab/sess"
 	"verif/harness/lab/tsgu"
@@ -48,7 +51,7 @@ var c05Subsets = [][]string{{"local"}, {"ntlm"}, {"kerberos"}, {"openid", "local
 
 var c05Auths = []string{"absent", "empty", "bare:NTLM", "bare:Negotiate", "bare:Basic", "short:NTL", "short:Basi", "short:Negotiat", "lower:ntlm", "lower:basic", "junk", "bearer",
 	"basic-right", "basic-right", "basic-wrong-pass", "basic-unknown-user", "basic-empty-pass", "basic-undecodable", "basic-nocolon", "basic-two-lines-junk-first", "basic-two-lines-right-first",
-	"ntlm-right", "ntlm-right", "ntlm-wrong-pass", "ntlm-unknown-user", "ntlm-type3-first", "ntlm-type3-other-conn", "ntlm-again-after-success", "ntlm-again-after-success", "ntlm-unknown-user-empty-pass", "in-for-another-users-out", "in-for-another-users-out", "ntlm-type1-only", "ntlm-garbage", "negotiate-ntlm-right", "negotiate-garbage", "xNTLM-prefix", "krb-valid", "krb-valid", "krb-foreign-key"}
+	"ntlm-right", "ntlm-right", "ntlm-wrong-pass", "ntlm-unknown-user", "ntlm-type3-first", "ntlm-type3-other-conn", "ntlm-again-after-success", "ntlm-again-after-success", "ntlm-unknown-user-empty-pass", "in-for-another-users-out", "in-for-another-users-out", "ntlm-unfinished-with-web-session", "ntlm-unfinished-with-web-session", "ntlm-type1-only", "ntlm-garbage", "negotiate-ntlm-right", "negotiate-garbage", "xNTLM-prefix", "krb-valid", "krb-valid", "krb-foreign-key"}
 
 func genC05(t *rapid.T) c05Case {
 	c := c05Case{Subset: rapid.SampledFrom(c05Subsets).Draw(t, "subset")}
@@ -361,6 +364,11 @@ func runC05(c c05Case) *Violation {
 			ntlmFlow("NTLM", r.User, pass, true, false)
 		case "ntlm-type3-other-conn":
 			ntlmFlow("NTLM", r.User, pass, false, true)
+		case "ntlm-unfinished-with-web-session":
+			if v := c05WebSession(in, r, openid && ntl, c.Subset); v != nil {
+				return v
+			}
+			continue
 		case "in-for-another-users-out":
 			if v := c05ForeignIn(in, r, local, ntl, c.Subset); v != nil {
 				return v
@@ -776,6 +784,53 @@ func c05ForeignIn(in *gwproc.Inst, r c05Req, local, ntl bool, subset []string) *
 	}
 	if len(heads) > 0 && heads[len(heads)-1].Code == 200 {
 		return viol("c05/joined-another-users-tunnel", "enabled %v: user %s opened RDG_OUT_DATA with identifier %s; RDG_IN_DATA with the same identifier and the (correct) credentials of user %s was accepted (200) as the second half of that tunnel", subset, other, c05ConnID, r.User)
+	}
+	return nil
+}
+
+// c05WebSession: the browser session of the client is logged in through OpenID; a tunnel request that carries that
+// session cookie together with an NTLM header that proves nothing (a negotiate message, rubbish, a wrong password)
+// has not presented confirmed credentials of an enabled scheme for the tunnel endpoint: it must not reach the handler.
+func c05WebSession(in *gwproc.Inst, r c05Req, applicable bool, subset []string) *Violation {
+	if !applicable {
+		return nil
+	}
+	b := newBrowser()
+	if lr, _, err := b.login(in, idp.CodeSpec{Sub: "web-" + r.User, Username: "web-" + r.User}); err != nil || lr.Code != http.StatusFound {
+		return nil // no web session: nothing to probe
+	}
+	u, _ := url.Parse(in.URL("/"))
+	var cks []string
+	for _, ck := range b.Jar.Cookies(u) {
+		cks = append(cks, ck.Name+"="+ck.Value)
+	}
+	proofs := []string{"NTLM " + base64.StdEncoding.EncodeToString(ntlmx.Negotiate()), "NTLM " + base64.StdEncoding.EncodeToString([]byte("rubbish")), "Negotiate " + base64.StdEncoding.EncodeToString(ntlmx.Negotiate())}
+	auth := proofs[atoi(r.User)%len(proofs)]
+	c, err := gwc.Target{Addr: in.Addr, TLS: in.TLS}.Dial()
+	if err != nil {
+		return nil
+	}
+	defer c.Close()
+	var sb strings.Builder
+	fmt.Fprintf(&sb, "RDG_OUT_DATA %s HTTP/1.1\r\nHost: %s\r\nRdg-Connection-Id: %s\r\nConnection: Upgrade\r\nUpgrade: websocket\r\nSec-WebSocket-Version: 13\r\nSec-WebSocket-Key: dGhlIHNhbXBsZSBub25jZQ==\r\n", gwc.GatewayPath, in.Addr, sess.NewConnID())
+	fmt.Fprintf(&sb, "Cookie: %s\r\nAuthorization: %s\r\n\r\n", strings.Join(cks, "; "), auth)
+	c.SetDeadline(time.Now().Add(10 * time.Second))
+	if _, err := c.Write([]byte(sb.String())); err != nil {
+		return nil
+	}
+	// the refusal may be followed on the same connection by what the tunnel handler writes, if it was entered after all
+	br := bufio.NewReader(c)
+	code, hdr, err := readHead(br)
+	for k := 0; k < 2 && err == nil && code != 101; k++ {
+		if cl := hdr["content-length"]; len(cl) > 0 {
+			n, _ := strconv.Atoi(cl[0])
+			io.CopyN(io.Discard, br, int64(n))
+		}
+		c.SetDeadline(time.Now().Add(500 * time.Millisecond))
+		code, hdr, err = readHead(br)
+	}
+	if err == nil && code == 101 {
+		return viol("c05/reached-without-confirmation/web-session", "enabled %v: a tunnel request with the cookie of a logged-in browser session and the header %q (no credentials confirmed) reached the tunnel handler", subset, shorten(auth))
 	}
 	return nil
 }
